@@ -39,13 +39,13 @@ def tok_num(text):
     return {'t': 'num', 'q': [q.numerator, q.denominator], 'f': f, 'text': text}
 
 
-def build(template, ops, operands, neg_at=None):
+def build(template, ops, operands, neg_at=None, signs=1):
     toks, oi, ai = [], 0, 0
     for part in template.split():
         if part == 'a':
             if neg_at is not None and ai == neg_at:
-                # a leading minus; parenthesised so that its place relative to ^ is not in question
-                toks += [{'t': 'lp', 'text': '('}, {'t': 'neg', 'text': '-'}, tok_num(operands[ai]), {'t': 'rp', 'text': ')'}]
+                # leading minus signs (each one negates); parenthesised so that their place relative to ^ is not in question
+                toks += [{'t': 'lp', 'text': '('}] + [{'t': 'neg', 'text': '-'}] * signs + [tok_num(operands[ai]), {'t': 'rp', 'text': ')'}]
             else:
                 toks.append(tok_num(operands[ai]))
             ai += 1
@@ -93,6 +93,8 @@ def enumerate_lists(tier, rng):
                 lists.append(build(tpl, ops, operands))
             lists.append(build(tpl, ops, ('3', '2'), neg_at=0))
             lists.append(build(tpl, ops, ('3', '2'), neg_at=1))
+            lists.append(build(tpl, ops, ('3', '2'), neg_at=rng.randrange(2), signs=2))
+            lists.append(build(tpl, ops, ('x', '2'), neg_at=0, signs=3))
     for ops in itertools.product(OPS, repeat=2):
         for tpl in TEMPLATES[2]:
             lists.append(build(tpl, ops, ('2', '3', '5')))
